@@ -525,6 +525,8 @@ def check_run(sh, case, letters, obs):
 def _pricings(case):
     """The successive pricings of one sequence: list of per-pricing case dicts (representation + key labels)."""
     if case["sub"] != "mixed":
+        if case["payoff"] in U.BARRIER_KINDS:  # narrower input class in the keys of the path-dependent payoffs
+            return [dict(case, dimlab=f"dim1:{case['payoff']}:{case['rep']}:spot-statistics-{'on' if case['spot'] else 'off'}")]
         return [case]
     out = []
     reps = case["reps"]
